@@ -61,7 +61,7 @@ fn grid() -> Vec<Case> {
     for naming in NG {
         // tight limits (every cleanup removes something) and generous ones (what an interrupted
         // cleanup leaves behind must survive the restarted run)
-        for clean in [CleanK::Never, CleanK::Log(1), CleanK::Gz(1), CleanK::LogGz(1, 1), CleanK::Gz(6), CleanK::LogGz(1, 6)] {
+        for clean in [CleanK::Never, CleanK::Log(1), CleanK::Gz(1), CleanK::LogGz(1, 1), CleanK::Gz(6), CleanK::LogGz(1, 6), CleanK::Gz(2)] {
             for symlink in [false, true] {
                 for append in [false, true] {
                     for prior_restart in [false, true] {
@@ -228,6 +228,22 @@ fn read_lines(dir: &Path, cfg: &Cfg) -> Result<(Vec<u8>, Vec<String>, usize, usi
     Ok((out, names, plain, gz))
 }
 
+/// Logical names (".gz" stripped, each once) of the family's files in age order, without the file
+/// with the static current infix.
+fn logical_names(dir: &Path, cfg: &Cfg) -> Vec<String> {
+    let scan = family::scan(dir, &cfg.parts, None, cfg.naming(), &[SYMLINK]);
+    let mut v: Vec<String> = Vec::new();
+    for m in &scan.members {
+        if m.role == Role::Current && cfg.naming().and_then(NamingK::current_infix).is_some() {
+            continue;
+        }
+        if !v.contains(&m.logical) {
+            v.push(m.logical.clone());
+        }
+    }
+    v
+}
+
 /// Matches the lines found against the records: all records with index < `must` (acknowledged)
 /// are required, later ones (in flight / new) are given in `tail` and are required too; a
 /// prefix may be missing only if `may_drop` (cleanup limit). One record in flight (index ==
@@ -283,6 +299,7 @@ fn check_crash_state(c: &Case, lines: &[Vec<u8>], st: &CrashState, append2: bool
         clause: "acked-missing",
         detail: format!("{} acknowledged records; snapshot files {names:?}\n   {e}", st.acked),
     })?;
+    let logical_before = logical_names(&st.dir, &c.cfg);
     // (2)+(3)+(4): restart on a copy of the snapshot
     let env = Env::at("c11r", st.now + chrono::Duration::seconds(1));
     std::fs::remove_dir_all(&env.dir).ok();
@@ -349,6 +366,24 @@ fn check_crash_state(c: &Case, lines: &[Vec<u8>], st: &CrashState, append2: bool
     }
     if let Some((k, m)) = c.cfg.rotation.and_then(|r| r.2.limits()) {
         let kk = if c.cfg.naming().is_some_and(NamingK::direct) { k.max(1) } else { k };
+        // "preserves all earlier records that the cleanup limit permits": of all files known
+        // (those the crash left and those the restarted run added, in age order) the newest
+        // k + m must still exist
+        let logical_after = logical_names(&env.dir, &cfg2);
+        let mut all = logical_before.clone();
+        for n in &logical_after {
+            if !all.contains(n) {
+                all.push(n.clone());
+            }
+        }
+        let keep = kk + m;
+        let newest: Vec<&String> = all.iter().rev().take(keep).collect();
+        if let Some(lost) = newest.iter().find(|n| !logical_after.contains(n)) {
+            return Err(Fail {
+                clause: "over-deleted-after-restart",
+                detail: format!("limits {k}/{m} permit the newest {keep} files, but {lost} is gone after the restarted run: files before the restart {logical_before:?}, after {names:?}"),
+            });
+        }
         if plain > kk || gz > m {
             return Err(Fail {
                 clause: "limits-after-restart",
